@@ -85,7 +85,11 @@ CLAIMED["C07"] = dict(
          "until a resampling is logged, which happens only on a change of state index. The exact count is a theorem too (C07_completion_step, C07_countdown, C07_countdown_fire and the TimerBegin/BlockingBegin analogues): in a state without a transition on the completion event, "
          "k < L completions of the machine leave the state and set the limit to L - k with nothing in the slot and no LimitReached, and the L-th completion of a limited action logs the decrement to 0 and delivers LimitReached to the machine in that very call (L = 0 included); "
          "completions for other machines or unknown ids never change the machine's limit or state (C07_other_machine_completion), and over any history the number of decrements of a machine's limit is at most the number of its completions (C07_decrements_le_completions). "
-         "The monitor on the implementation's hooked limit log and the correspondence tie the code to this.",
+         "The monitor is tied to the model by theorems as well (Proofs/LimitLog.lean, LimitStep.lean, LimitMonitor.lean, WalkExt.lean): C07_log_accepted (with C07_log_resample_exact / C07_log_decrement_exact) - for any machines, oracle, batch and state, "
+         "the ghost log of every fault-free call passes C07.checkLog started from the snapshot before the call: a change of state index is directly followed by the limit assignment, a self-transition never is, every decrement logs the tracked limit minus one, and "
+         "LimitReached follows directly exactly at 0 in a state whose action carries a limit; C07_log_own_completions, C07_log_single_completion, C07_log_no_limited_action (with the slot invariant of C07_slot_invariant) prove the monitor's other rules; "
+         "C07_monitor_accepts_model: C07.monitor returns none on the model's own trace for every machine set, configuration, oracle and history, so the monitor can raise no false alarm on an implementation that agrees with the model, and the model satisfies C07 "
+         "in the monitor's own vocabulary. The monitor on the implementation's hooked limit log and the correspondence tie the code to this.",
     ref="5 (C07)",
     technique="Lean 4 theorems on the limit predicates and the decrement/enter functions of the model + hooked limit log: spec monitor and differential correspondence on the implementation",
 )
